@@ -32,7 +32,9 @@ def run(ctx):
     for cfg in (["Gen_n1", "Gen_n2", "Gen_n1z", "Gen_n2z", "Gen_n1u", "Gen_n2u"] if ctx.quick else ["Gen_n1", "Gen_n2", "Gen_n1z", "Gen_n2z", "Gen_n1u", "Gen_n2u", "Gen_n3run", "Gen_n3runz"]):
         part = ctx.gen("System", "Gen_System.tla", cfg + ".cfg", cfg, workers=8, timeout=3000, heap="12g")
         with open(sysscen, "a") as out:
-            for line in open(part):
+            for i, line in enumerate(open(part)):
+                if ctx.quick and cfg == "Gen_n2u" and i % 3:
+                    continue                      # quick: every third of the systems coupled with the implicit equation
                 if '"kind":"none"' in line.split('"fault":')[1][:40]:
                     out.write(line)
     nsys = sum(1 for _ in open(sysscen))
